@@ -44,9 +44,20 @@ func buildInstrumented(variant, scratch string) (worker string, extraEnv []strin
 		var out bytes.Buffer
 		cmd.Stdout, cmd.Stderr = &out, &out
 		if e := cmd.Run(); e != nil {
-			return "", nil, "", fmt.Errorf("the repository's own suite fails on the instrumented copy (instrumentation does not conform, or /repo does not pass its suite):\n%s", tail(out.String(), 3000))
+			// Is it the instrumentation, or does /repo fail its own suite anyway? Only the former is
+			// an error of the machinery.
+			plain := exec.Command("go", "test", "-vet=off", "-count=1", "./...")
+			plain.Dir = repoDir
+			plain.Env = goEnv()
+			var pout bytes.Buffer
+			plain.Stdout, plain.Stderr = &pout, &pout
+			if pe := plain.Run(); pe == nil {
+				return "", nil, "", fmt.Errorf("the repository's own suite passes on /repo but fails on the instrumented copy: the instrumentation does not conform\n%s", tail(out.String(), 3000))
+			}
+			suiteNote = fmt.Sprintf("conformance inconclusive: the repository's own suite fails on /repo itself as well as on the instrumented copy (%d map ranges rewritten, %d sync imports redirected)", rep.MapRanges, rep.SyncImports)
+		} else {
+			suiteNote = fmt.Sprintf("repository suite passes on the instrumented copy (%d map ranges rewritten, %d sync imports redirected)", rep.MapRanges, rep.SyncImports)
 		}
-		suiteNote = fmt.Sprintf("repository suite passes on the instrumented copy (%d map ranges rewritten, %d sync imports redirected)", rep.MapRanges, rep.SyncImports)
 	} else {
 		suiteNote = fmt.Sprintf("suite skipped by VERIF_SKIP_SUITE (%d map ranges rewritten, %d sync imports redirected)", rep.MapRanges, rep.SyncImports)
 	}
